@@ -85,6 +85,12 @@ func init() {
 	w1("C20", "seeded scenario with hooks configured and simulated hook processes x seeded schedule; non-trivial = two or more hook launches; distinct = distinct event-order hash")
 	w1("C39", "seeded scenario with forward lists and reloads x seeded schedule; non-trivial = a forwarder handler was started; distinct = distinct event-order hash")
 	w1("C40", "seeded scenario with everything enabled (publishers, readers, API polls, reloads, hooks, forwarders, shutdown) x seeded schedule, built with the race detector; the scheduler's own synchronisation is hidden from the detector so happens-before is the program's; non-trivial = at least one publisher and one reader attached; distinct = distinct event-order hash", "*")
+	reg(&propDef{ID: "C33", World: "s2", Level: "exploration", Quick: 40000, Thorough: 4000000, QuickS: 60, ThorS: 900,
+		Rule:  "seeded sender (group ids with gaps, payload sizes) x seeded network (reorder window 0..2*MaxReordered, duplication with equal or different size, loss, late duplicates) x limits (MaxReordered 1-8, MaxPendingBytes 64..100000) x 1-3 concurrent pushers under the seeded scheduler; non-trivial = the arrival sequence contains reordering, duplication or loss; distinct = distinct event-log hash",
+		Real:  []string{"internal/protocols/moq/reorderer.Reorderer (instrumented)"},
+		Stubs: []string{"QUIC transport and MoQ session: replaced by a simulated network that decides arrival order, duplication and loss; the consumer of the handed-on subgroups is the oracle"},
+		LevelText: "seeded search over arrival sequences and pusher interleavings of the real reorderer; sequential runs are checked against a reference of what may be held back, concurrent runs against order-insensitive clauses",
+		LevelNote: "trusted: goinst rewrite; the reference for 'held back' counts distinct received groups newer than the last delivered one and the smallest received copy of each"})
 	props["C40"].Race = true
 	props["C40"].Quick, props["C40"].Thorough = 1200, 100000
 	props["C40"].LevelNote += "; metrics scrapes over HTTP and real session kick paths are outside (front-ends are stubs); data races are those the Go race detector reports under the explored schedules"
